@@ -296,6 +296,49 @@ func runC10(c *mon.Ctx) {
 			})
 		}
 	}
+	// directed, version-1 algorithm: a kick on one branch against renames on the other, resolved with auth events that
+	// cover keys in conflict too (pre-fork member events, or one of the candidates): every block of a type is judged
+	// against the auth events as supplied, whichever block the resolver happens to walk first
+	for _, ver := range versions {
+		if t := ref.Traits(string(ver)); t == nil || t.StateRes != 1 {
+			continue
+		}
+		for k := 0; k < c.Scale(32, 640); k++ {
+			sr := c.Rand(fmt.Sprintf("v1-ancestors-%s-%d", ver, k))
+			s, sets, auth, victim, skipped := v1AncestorScenario(sr, ver)
+			if skipped != "" {
+				c.Count(skipped)
+				continue
+			}
+			c.Case("resolve:v1-auth-events-for-conflicted-keys:"+string(ver), map[string]any{"version": ver, "kicked": victim, "state_sets": [][]string{idsOf(sets[0]), idsOf(sets[1])}, "auth_events": idsOf(auth)}, func() {
+				c.Nontrivial(fmt.Sprintf("v1anc|%s|%d", ver, k))
+				m := map[ref.SKey]string{}
+				for _, p := range auth {
+					m[ref.SKey{Type: p.Type(), Key: *p.StateKey()}] = p.EventID()
+				}
+				in, _ := resInput(&simScenario{s: s}, sets, auth, nil)
+				wantM := ref.ResolveV1(in, m)
+				want := []string{}
+				for _, id := range wantM {
+					want = append(want, id)
+				}
+				sort.Strings(want)
+				for i := 0; i < 24; i++ {
+					got, err := gmsl.ResolveConflictsNew(ver, sets, auth, userIDForSender, func(string) bool { return false })
+					if err != nil {
+						c.Failf("stateres:error", "ResolveConflictsNew(v%s): %v", ver, err)
+						return
+					}
+					c.Count("resolutions")
+					c.Count("v1_resolutions_with_auth_events_for_conflicted_keys")
+					if gotIDs := idsOf(got); strings.Join(gotIDs, ",") != strings.Join(want, ",") {
+						c.Failf("stateres:alg1:differs:auth-events-for-conflicted-keys", "v%s, call %d of 24: resolved state %v differs from the reference %v (a kick of %s against renames; auth events %v)", ver, i+1, short(gotIDs), short(want), victim, short(idsOf(auth)))
+						return
+					}
+				}
+			})
+		}
+	}
 	c.Floor("resolutions", 50)
 	c.Floor("with_conflicted_power_events", 20)
 	c.Floor("with_auth_difference", 20)
